@@ -70,6 +70,8 @@ var c19Inputs = []struct {
 	{"unicode", `{"a": "é😀\u2028", "é": [1]}`, true},
 	{"big numbers", `{"a": 1e300, "b": 12345678901234567890, "c": 0.1}`, true},
 	{"html chars", `{"a": "<b>&amp;</b>", "s": "<a href=\"x\">&</a>"}`, true},
+	{"escape look-alikes", `{"a": "\\u003c is not an escape here", "s": "C:\\u003e\\path \\u0026 \\n \\\\u003c", "t": "{\"x\":\"<\"}", "arr": ["\\u003cb\\u003e", "<", ">", "&", "\u003c", "\\", "\\\\"], "o": {"k<": "<&>", "\\u0026": 1, "q": "\"\\u003e\""}, "n": 1, "objs": [{"n": 1, "s": "<"}, {"n": 2, "s": "\\u003c"}]}`, true},
+	{"json in strings", `{"a": "{\"k\": \"\\u003cv\\u003e\"}", "s": "[\"<\", \"\\u0026\"]", "arr": ["\"", "\\\"", "\\u0022"], "n": 0, "t": "\\t\\n\\r\\b\\f\\/"}`, true},
 	{"percent signs", `{"a": "50%", "s": "100%% sure %d %s %v %!", "t": "%", "cpu%": 1, "n": {"%s": "%q"}, "arr": ["%", "%%"]}`, true},
 	{"control characters", `{"a": "x\u0001y\u007f\u001f", "s": "\u0000\u0008\u000b\u001b[0m\u0085\u2028\ufeff", "t": "tab\there"}`, true},
 	{"astral and unprintable", `{"s": "\ud83d\ude00\udb40\udc01\u200b", "a": ["\u0007"]}`, true},
@@ -110,7 +112,8 @@ func c19(r *mon.Run) {
 		os.WriteFile(files[i], []byte(in.data), 0o644)
 	}
 	fixedGood := []string{"a.b[2].c", "arr", "sort(arr)", "objs[*].n", "sort_by(objs, &n)[0].s", "@", "*", "keys(@)", "length(@)", "[0]", "a.b[?@ > `1`]", "to_string(@)", "s", "n", "t", "z", "{x: n, y: s}", "[n, s, `null`]",
-		"'<raw>&'", "`{\"k\": [1, 2]}`", "a.b[::-1]", "not_null(z, s)", "type(n)", "max_by(objs, &n)", "join(', ', objs[*].s)", "a || b", "!z", "n < `0`", "\"é\"", "a.\"b\"[0]", "sum(arr)", "avg(arr)", "arr[1:]", "merge(@, {x: `1`})", "keys(@)[0]", "sort(keys(@))", "'50%'", "'%d'", "{p: '%s', q: s}"}
+		"'<raw>&'", "`{\"k\": [1, 2]}`", "a.b[::-1]", "not_null(z, s)", "type(n)", "max_by(objs, &n)", "join(', ', objs[*].s)", "a || b", "!z", "n < `0`", "\"é\"", "a.\"b\"[0]", "sum(arr)", "avg(arr)", "arr[1:]", "merge(@, {x: `1`})", "keys(@)[0]", "sort(keys(@))", "'50%'", "'%d'", "{p: '%s', q: s}",
+		"to_string(o)", "to_string(arr)", "to_string(@)", "'\\u003e'", "'\\u0026amp; \\u003c'", "keys(o)", "to_string(to_string(@))", "join('', arr)", "to_string(objs[*].s)", "o", "t", "[a, s, t]", "to_string(t)", "`\"\\\\u003c\"`", "to_string(`\"<&>\"`)", "to_string(['<', '>', '&'])"}
 	evalErr := []string{"abs('x')", "abs()", "nosuchfn(@)", "arr[::0]", "sort_by(objs, &@)", "length(n)", "[abs(s), n]", "objs[*].abs(s)", "merge(@, `1`)", "to_string(&a)", "sum(a)", "max(`[1, \"a\"]`)"}
 	n := tierPick(r, 4000, 40000)
 	w := mon.Workload{Name: "invocations", N: n, Batch: 50,
@@ -142,7 +145,7 @@ func c19(r *mon.Run) {
 			}
 			ii := rng.Intn(len(c19Inputs))
 			if i%3 == 0 {
-				ii = rng.Intn(16) // favour valid input
+				ii = rng.Intn(18) // favour valid input
 			}
 			in := c19Inputs[ii]
 			channel := []string{"stdin", "file", "missing file"}[[]int{0, 0, 1, 1, 1, 2}[rng.Intn(6)]]
